@@ -35,6 +35,7 @@ type Contract struct {
 	Properties []string
 	Requires   []*Clause
 	Ensures    []*Clause
+	Trusted    []*Clause // postconditions assumed at call sites only (never checked in the body)
 	Modifies   []*Clause
 	Loops      map[int]*LoopSpec
 	Lits       map[int]*Contract // nested function literals as units
@@ -140,7 +141,7 @@ type ContractFile struct {
 }
 
 var clauseKeywords = map[string]bool{
-	"func": true, "assume": true, "property": true, "requires": true, "ensures": true,
+	"func": true, "assume": true, "property": true, "requires": true, "ensures": true, "callers-assume": true,
 	"modifies": true, "loop": true, "lit": true, "inline": true, "pure": true, "arith": true,
 	"nowrap": true, "concurrent": true, "deterministic": true, "ghost": true, "spec": true,
 	"axiom": true, "lemma": true, "const-invariant": true, "type": true, "guarded_by": true,
@@ -241,6 +242,23 @@ func parseContractFile(path, pkgPath string) (*ContractFile, error) {
 			} else {
 				return nil, fail(l, "property outside block")
 			}
+		case "callers-assume":
+			// callers-assume [name] expr : a postcondition the callers may rely on but
+			// the body is not checked against (listed in the evidence as trusted)
+			if target == nil {
+				return nil, fail(l, "callers-assume outside func block")
+			}
+			name := ""
+			if strings.HasPrefix(rest, "[") {
+				k := strings.Index(rest, "]")
+				name, rest = rest[1:k], strings.TrimSpace(rest[k+1:])
+			}
+			c, err := mkClause("ensures", rest, l)
+			if err != nil {
+				return nil, err
+			}
+			c.Name = name
+			target.Trusted = append(target.Trusted, c)
 		case "requires", "ensures", "cover":
 			if target == nil {
 				return nil, fail(l, "%s outside func block", word)
